@@ -53,7 +53,7 @@ real_names = re.findall(r'"([^"]*)"', m.group(1)) if m else []
 names_file = os.path.join(work, "names.txt")
 open(names_file, "w").write("\n".join(real_names) + "\n")
 res = os.path.join(work, "out.json")
-n, mods, runs = (40000, 20, 40) if ck.thorough() else (3000, 3, 20)
+n, mods, runs = (40000, 20, 40) if ck.thorough() else (3000, 3, 16)
 rc, out = sh([exe, "-work", work, "-out", res, "-seed", str(ck.seed), "-n", str(n), "-mods", str(mods), "-runs", str(runs),
               "-staticcheck", sc, "-names", names_file], timeout=3000, env=dict(GOENV, VERIF_REPO=REPO))
 if rc != 0:
@@ -268,7 +268,8 @@ ck.trusted += ["harness hc11 (/verif/harness/cmd/hc11) and hook lintcmd/verif_ex
                "TOML decoding of staticcheck.conf (BurntSushi/toml) and the directory walk of parseConfigs are not modelled; they are exercised by config.Load and by the staticcheck binary on generated trees"]
 ck.assume += ["check names, selection elements and categories are ASCII (strings.ToLower / unicode.IsNumber are modelled on ASCII); c11_ascii_names discharges it for every registered check name",
               "every analyzer runs regardless of the selection and its problems do not depend on the selection (modelled by success being a filter; explored on %d staticcheck runs against a -checks '*' baseline)" % len(cli),
-              "with -show-ignored ignored problems are printed and counted like any other (modelled as the code does; the property statement is claimed for the default)"]
+              "with -show-ignored ignored problems are printed and counted like any other (modelled as the code does; the property statement is claimed for the default)",
+              "the problems handed to printDiagnostics are pairwise different in (position, category up to case, message): merging of duplicates is C12's subject"]
 ck.finish({
     "evaluations": len(cases),
     "distinct_nontrivial": len(nt),
